@@ -45,7 +45,11 @@ Inductive c12case :=
    DoWithShard at do:running until the idle timer of its shard had fired and the cleanup routine stood queued on the
    entry's write lock (reached; when the harness could not reach that state the run is still judged), then released: the request returned / with an error / the cleanup routine
    finished afterwards / a fresh request loaded the shard again *)
-| CRpc (handler : N) (reached returned failed unloaded freshOk : bool).
+| CRpc (handler : N) (reached returned failed unloaded freshOk : bool)
+(* the process died while a forced schedule over these threads ran (a panic or fatal error of the code under test
+   on a goroutine of its own, e.g. the cleanup routine); the schedule events died with it, the harness arguments of
+   the replay re-run the schedule *)
+| CDied (backup : bool) (nshards : N) (threads : list tspec).
 
 (* ------------------------------------------------------------------ *)
 (* coarse machine *)
@@ -237,6 +241,7 @@ Definition verdict (c : c12case) : N :=
       (* the model's outcome for this schedule (run_ex_unload below: request ok, then unloaded, no entry left)
          presupposes that the callback returns; the observation is judged on its own *)
       first_fail [ (returned, 107); (negb failed, 108); (unloaded, 109); (freshOk, 104) ]%N
+  | CDied _ _ _ => 112%N
   end.
 
 Fixpoint bad_from (i : N) (cs : list c12case) : list (N * N) :=
